@@ -79,8 +79,9 @@ def run(chk, tier):
     ]
     vars_ = []
     for (name, op, cpos, cval, text), c in zip(shapes, g):
-        okg = c.op == op and c.args[cpos].op == "const" and c.args[cpos].aux == cval
-        v = c.args[1 - cpos] if okg else None
+        shape = c.op == op and c.args[cpos].op == "const"
+        okg = shape and c.args[cpos].aux == cval
+        v = c.args[1 - cpos] if shape else None
         okg = okg and v is not None and v.op in ("sym", "rng")
         vars_.append(v)
         chk.ob("R3", "guard %s|%s" % (name, text), okg, "found %s" % T.show(c, 4), where=where,
